@@ -240,9 +240,13 @@ fn gen_hist(ctx: &mut Ctx, buf: BufKind) -> Hist {
             if let BufKind::Arr(n) = buf {
                 let q: Vec<u8> = (0..n + 1 + rng.below(4)).map(|i| 0x21 + (i % 64) as u8).collect();
                 let f = ref_encode(&q);
-                let mut d = new_decoder(buf);
-                let mut log = Log::new();
-                feed(d.as_mut(), &f, 0, &mut log);
+                let log = crate::core::guarded(|| {
+                    let mut d = new_decoder(buf);
+                    let mut log = Log::new();
+                    feed(d.as_mut(), &f, 0, &mut log);
+                    log
+                })
+                .unwrap_or_default();
                 if let Some((p, TEv::Err(DErr::Oom))) = log.first() {
                     return Hist::AfterError(f[..=*p].to_vec(), "after-OutOfMemory");
                 }
